@@ -17,8 +17,8 @@ ASSUMPTIONS = ['the M5 model is the only witness (no second XSD implementation i
                'compared fields always have the same primitive type (cross-primitive equality is not generated)',
                'date values use no zone or UTC only; decimal literals avoid the forms "1." and ".5"',
                'structure validity of every instance is guaranteed by a permissive content model, so every reported error is an identity-constraint error']
-BUDGET = {'quick': 260, 'thorough': 2000}
-WALLCAP = {'quick': 420, 'thorough': 3000}
+BUDGET = {'quick': 500, 'thorough': 4000}
+WALLCAP = {'quick': 500, 'thorough': 3000}
 
 VALID = C08.VALID; VNAME = C08.VNAME; XNAME = C08.XNAME
 IC_CODES = ['IC_FieldMultipleMatch', 'IC_UnknownField', 'IC_AbsentKeyValue', 'IC_KeyNotEnoughValues', 'IC_KeyMatchesNillable', 'IC_DuplicateUnique',
@@ -26,7 +26,6 @@ IC_CODES = ['IC_FieldMultipleMatch', 'IC_UnknownField', 'IC_AbsentKeyValue', 'IC
 CLASS = {'dup-unique': ['IC_DuplicateUnique'], 'dup-key': ['IC_DuplicateKey'], 'key-absent': ['IC_AbsentKeyValue', 'IC_KeyNotEnoughValues'],
          'keyref-notfound': ['IC_KeyNotFound', 'IC_KeyRefOutOfScope'], 'field-multi': ['IC_FieldMultipleMatch']}
 XENV = C08.XENV
-SG_CACHED_NONS = 'C08-sg-cached-nonamespace-root'
 
 def verdict(lines, viol):
     errs = [l for l in lines if l[0] == 'ERR']; excs = [l for l in lines if l[0] == 'EXC']
@@ -62,16 +61,23 @@ def render_doc(case, root, hint=False):
 def ic_case(draw, tier):
     ext = draw(st.integers(0, 2)) > 0
     big = draw(st.integers(0, 24)) == 0
-    c = draw(im.gen_case(ext=ext, big=big))
+    c = draw(im.gen_case(ext=ext, big=big, propagate=not EX(PROPAGATED)))
     c['cfg'] = {'api': draw(st.sampled_from(['sax2', 'dom'])), 'scanner': draw(st.sampled_from(['IG', 'IG', 'SG'])), 'fullcheck': draw(st.sampled_from([1, 0])),
                 'route': draw(st.sampled_from(['cached'] * 4 + ['hint']))}
     c['perm'] = im.permuted(draw, c['root'])
     c['ext'] = ext; c['big'] = big
     return c
 
+# ---- known findings: every exclusion is switchable (VERIF_C10_EXCLUSIONS_OFF=id,id,... or 'all') -------------------------------
+SG_CACHED_NONS = 'C08-sg-cached-nonamespace-root'          # owned by C08; C10 only routes around it
 DESC_CTX = 'C10-descendant-selector-matches-context-element'
 DESC_NOBACKTRACK = 'C10-descendant-selector-misses-nested-first-step'
 NESTED_ELEM_FIELD = 'C10-nested-scope-element-field-multimatch'
+PROPAGATED = 'C10-keyref-table-propagation'
+ALL_EXCLUSIONS = [SG_CACHED_NONS, DESC_CTX, DESC_NOBACKTRACK, NESTED_ELEM_FIELD, PROPAGATED]
+_off = os.environ.get('VERIF_C10_EXCLUSIONS_OFF', '')
+ACTIVE_EXCLUSIONS = set() if _off == 'all' else set(ALL_EXCLUSIONS) - set(x for x in _off.split(',') if x)
+def EX(fid): return fid in ACTIVE_EXCLUSIONS
 
 def known_class(case, root):
     """input classes excluded because of genuine defects found on the unchanged tree (see report)"""
@@ -110,8 +116,11 @@ def check_ic(ctx, ex, c, tier):
     cfg = dict(c['cfg']); tns = c['tns']
     schema = im.render_schema(tns, c['T'], c['ics'], c['style'])
     texts = {'s.xsd': schema}
+    case_fid = None
     if cfg['scanner'] == 'SG' and cfg['route'] == 'cached' and not tns:
-        st_.excluded_known[SG_CACHED_NONS] += 1; cfg['route'] = 'hint'
+        if EX(SG_CACHED_NONS): st_.excluded_known[SG_CACHED_NONS] += 1; cfg['route'] = 'hint'
+        else: case_fid = SG_CACHED_NONS
+    if 'propagated-table' in c['labels']: case_fid = case_fid or PROPAGATED
     fc = dict(cfg); fc['fullcheck'] = 1
     lload, _ = C08.run_docs(ex, texts, ['s.xsd'], fc, [])
     prob = C08.load_problem(lload, False)
@@ -125,7 +134,9 @@ def check_ic(ctx, ex, c, tier):
     docs = []; viols = []; stats = []
     for name, root in variants:
         kc = known_class(c, root)
-        if kc: st_.excluded_known[kc] += 1; return
+        if kc:
+            if EX(kc): st_.excluded_known[kc] += 1; return
+            case_fid = case_fid or kc
         v = m.check(root); viols.append(set(v)); stats.append(dict(m.stats)); docs.append(render_doc(c, root, hint))
     if viols[0] != viols[1] or (len(viols) > 2 and viols[2] != viols[0]):
         st_.oracle_disagreements += 1      # the model itself is not invariant: drop
@@ -143,7 +154,7 @@ def check_ic(ctx, ex, c, tier):
                  (['equal-lex-diff'] if sx['equal_lex_diff'] else []))
         bad = verdict(lines, v)
         if bad:
-            raise PropertyFailure({'lane': 'ic', 'schemas': texts, 'load': ['s.xsd'], 'cfg': cfg, 'doc': doc, 'viol': sorted(v), 'variant': name,
+            raise PropertyFailure({'lane': 'ic', 'finding': case_fid, 'schemas': texts, 'load': ['s.xsd'], 'cfg': cfg, 'doc': doc, 'viol': sorted(v), 'variant': name,
                                    'ics': [ic.to_json() for ic in c['ics']], 'types': c['T']}, bad)
     st_.sample({'schema': schema[-700:], 'doc': docs[0][:400], 'viol': sorted(viols[0]), 'cfg': cfg})
 
@@ -168,6 +179,25 @@ def run_case(case, ex):
 def replay(case, ctx):
     if case.get('lane') == 'died': return True, 'executor-death case; see stderr in the finding file'
     return run_case(case, ctx.executor('xv_xsd', extra_env=XENV))
+
+# ---- known findings (genuine defects found on the unchanged tree; the input classes are excluded by construction above) ------
+KNOWN_DIR = os.path.join(os.path.dirname(os.path.dirname(os.path.dirname(os.path.abspath(__file__)))), 'regress-known', ID)
+
+def known_witnesses():
+    """(finding-id, case) for every stored witness of an OPEN finding (regress-known/C10/<id>.json)"""
+    import json
+    out = []
+    for fid in ALL_EXCLUSIONS:
+        path = os.path.join(KNOWN_DIR, fid + '.json')
+        if os.path.exists(path):
+            obj = json.load(open(path)); out.append((fid, obj.get('case', obj)))
+    return out
+
+def classify(case, detail):
+    """the generator records in case['finding'] that the failing case lies in the input class of a known finding (known_class(): selector
+    shape + instance nesting; SG scanner + cached no-namespace grammar; keyref resolved through a table propagated from a descendant scope)"""
+    fid = case.get('finding')
+    return fid if fid in ALL_EXCLUSIONS else None
 
 def dev_lanes(ctx, ex):
     tier = ctx.tier if ctx.tier in ('quick', 'thorough') else 'quick'
